@@ -21,6 +21,7 @@ The only side condition is `n < 2^64` (`items.len()` is a `usize`).
 -/
 import Rs1090.Proofs.Tui
 import Rs1090.Gen.Ratatui
+import Rs1090.Gen.TuiPump
 namespace Rs1090.Props.C17
 open Rs1090 Rs1090.Model.Tui Rs1090.Proofs.Tui
 
@@ -382,6 +383,207 @@ theorem ratatui_version_modelled :
         "eabd94c2f37801c20583fc49dd5cd6b0ba68c716787c2dd6ed18571e1e63117b")] ∧
     Gen.Ratatui.jet1090Requirement = "0.29.0" := by decide
 
+/-! ### search mode: the rows DISPLAYED are the aircraft the current query lists
+
+`build_table` refills `items` on every redraw with the aircraft of that moment which the current
+`search_query` lists (`Model.Tui.displayed`), and `main` redraws after every handled event
+(`Model.Tui.mainLoop`).  The theorems hold for ANY regex semantics (`m : Matcher`), any query, any fleet
+at every iteration (aircraft appear, disappear, age out or change their fields between two key presses). -/
+
+/-- the second age filter of `build_table` (same `now`) removes nothing: the table has exactly one row per
+    item, so ratatui clamps the selection against `items.len()` -/
+theorem tableRows_eq_displayed (m : Matcher) (now : Nat) (q : List Char) (fleet : List Aircraft) :
+    tableRows m now q fleet = displayed m now q fleet := by
+  unfold tableRows displayed
+  rw [List.filter_filter]
+  congr 1
+  funext a
+  unfold listed
+  cases fresh now a <;> simp
+
+/-- the displayed rows are a sublist of the fleet, hence at most as many -/
+theorem displayed_le (m : Matcher) (now : Nat) (q : List Char) (fleet : List Aircraft) :
+    (displayed m now q fleet).length ≤ fleet.length := List.length_filter_le _ _
+
+/-- side conditions of a run of the loop: `state_vectors` holds fewer than `2^64` aircraft and every
+    redraw is on a terminal that shows the table (≥ 5 columns, ≥ 3 lines) -/
+def ItersOk (its : List Iter) : Prop :=
+  ∀ it ∈ its, it.fleet.length < 2 ^ 64 ∧ it.t.showsTable = true
+
+theorem showsTable_w {t : Term} (h : t.showsTable = true) : 0 < t.w := by
+  simp [Term.showsTable] at h; omega
+
+/-- **One redraw.**  From ANY state (stale selection, any query): afterwards the row count is the number
+    of aircraft the current query lists, the query is unchanged, and the selected index — when there is
+    one — is below the number of displayed rows; on an empty display nothing is selected. -/
+theorem redrawF_displayed (m : Matcher) (t : Term) (now : Nat) (fleet : List Aircraft) (ui : Ui)
+    (hf : fleet.length < 2 ^ 64) (ht : t.showsTable = true) :
+    ∃ ui', redrawF m t now fleet ui = .ok ui' ∧ ui'.query = ui.query ∧ ui'.quit = ui.quit ∧
+      ui'.n = (displayed m now ui'.query fleet).length ∧ Inv ui' ∧
+      (∀ i, ui'.selected = some i → i < (displayed m now ui'.query fleet).length) := by
+  have hk : (displayed m now ui.query fleet).length < 2 ^ 64 :=
+    Nat.lt_of_le_of_lt (displayed_le ..) hf
+  refine ⟨draw ui (displayed m now ui.query fleet).length, ?_, rfl, rfl, rfl, draw_inv _ _ hk, ?_⟩
+  · unfold redrawF; exact drawOn_shown t ui _ (showsTable_w ht) ht
+  · intro i hi
+    have hinv := draw_inv ui (displayed m now ui.query fleet).length hk
+    have hq : (draw ui (displayed m now ui.query fleet).length).query = ui.query := rfl
+    rw [hq]
+    by_cases h0 : (displayed m now ui.query fleet).length = 0
+    · simp [draw, h0] at hi
+    · exact (hinv.2 i hi).2 (Nat.pos_of_ne_zero h0)
+
+/-- **The loop of `main`, every run.**  Any regex semantics, any start state satisfying the invariant
+    (`main`'s start-up state does: `init_inv_strict`), any list of iterations — each with an optional event
+    (typing / deleting characters in search mode included), its own fleet, clock and terminal size:
+    the loop does not panic, the invariant holds at the end (hence after every iteration: the statement
+    is about every list), and unless the loop was left by `q`/`Esc` the row count the invariant speaks of
+    IS the number of aircraft of the last iteration's fleet that the final query lists. -/
+theorem mainLoop_inv (m : Matcher) (its : List Iter) : ∀ ui, Inv ui → ItersOk its →
+    ∃ ui', mainLoop m ui its = .ok ui' ∧ Inv ui' ∧
+      (∀ it, its.getLast? = some it → ui'.quit = false →
+        ui'.n = (displayed m it.now ui'.query it.fleet).length ∧
+        ∀ i, ui'.selected = some i → i < (displayed m it.now ui'.query it.fleet).length) := by
+  induction its with
+  | nil => intro ui h _; exact ⟨ui, rfl, h, fun it hl => by cases hl⟩
+  | cons it rest ih =>
+    intro ui hinv hok
+    have hok' : ItersOk rest := fun x hx => hok x (List.mem_cons_of_mem _ hx)
+    obtain ⟨hf, ht⟩ := hok it (List.mem_cons_self ..)
+    -- the event
+    have hev : ∃ u1, stepEv ui it.ev = .ok u1 ∧ Inv u1 := by
+      cases it.ev with
+      | none => exact ⟨ui, rfl, hinv⟩
+      | some e =>
+        obtain ⟨u1, h1, _⟩ := update_total ui e hinv.1
+        exact ⟨u1, h1, update_inv ui u1 e hinv h1⟩
+    obtain ⟨u1, h1, hi1⟩ := hev
+    cases hq : u1.quit with
+    | true =>
+      refine ⟨u1, ?_, hi1, fun _ _ hq' => by rw [hq] at hq'; cases hq'⟩
+      unfold mainLoop; rw [h1, Outcome.bind_ok]; simp [hq]
+    | false =>
+      obtain ⟨u2, h2, hq2, hquit2, hn2, hi2, hs2⟩ := redrawF_displayed m it.t it.now it.fleet u1 hf ht
+      obtain ⟨u3, h3, hi3, hl3⟩ := ih u2 hi2 hok'
+      refine ⟨u3, ?_, hi3, ?_⟩
+      · unfold mainLoop; rw [h1, Outcome.bind_ok]; simp only [hq]
+        rw [h2, Outcome.bind_ok]; exact h3
+      · intro x hx hqx
+        cases rest with
+        | nil =>
+          simp at hx; subst hx
+          have : u3 = u2 := by simp [mainLoop] at h3; exact h3.symm
+          subst this
+          exact ⟨hn2, hs2⟩
+        | cons y ys =>
+          rw [List.getLast?_cons_cons] at hx
+          exact hl3 x hx hqx
+
+/-- … from the start-up state of `main` (no aircraft yet, `with_selected(0)`). -/
+theorem mainLoop_from_startup (m : Matcher) (its : List Iter) (hok : ItersOk its) :
+    ∃ ui', mainLoop m (init 0 (some 0)) its = .ok ui' ∧ Inv ui' ∧
+      (∀ it, its.getLast? = some it → ui'.quit = false →
+        ∀ i, ui'.selected = some i → i < (displayed m it.now ui'.query it.fleet).length) := by
+  obtain ⟨u, h, hi, hl⟩ := mainLoop_inv m its _ (init_inv_strict 0 (by decide)).inv hok
+  exact ⟨u, h, hi, fun it hx hq => (hl it hx hq).2⟩
+
+theorem mainLoop_ne_panic (m : Matcher) (its : List Iter) (ui : Ui) (h : Inv ui) (hok : ItersOk its)
+    (s : Site) : mainLoop m ui its ≠ .panic s := by
+  obtain ⟨u, hu, _⟩ := mainLoop_inv m its ui h hok
+  rw [hu]; intro h'; cases h'
+
+/-- Between the key press and the redraw the selection may exceed the rows the NEW query lists (the handler
+    does not look at the fleet): typing `b` with row 1 of `[aaaaaa, bbbbbb]` selected leaves index 1 while
+    the query now lists one aircraft; the redraw of the same iteration clamps it to 0.  `Inv` after
+    `update()` alone therefore speaks of the rows still on screen (`ui.n`), and the `mainLoop` theorems of
+    the rows on screen after each redraw. -/
+def twoAircraft : List Aircraft := [{ icao24 := "aaaaaa".toList }, { icao24 := "bbbbbb".toList }]
+
+theorem typing_then_redraw_clamps :
+    update { init 2 (some 1) with search := true } (.key (.char 'b')) =
+      .ok { init 2 (some 1) with search := true, query := ['b'] } ∧
+    (displayed litMatch 0 ['b'] twoAircraft).length = 1 ∧
+    mainLoop litMatch { init 2 (some 1) with search := true }
+        [⟨some (.key (.char 'b')), ⟨100, 30⟩, 0, twoAircraft⟩] =
+      .ok { init 1 (some 0) with search := true, query := ['b'] } := by
+  decide
+
+/-! ### `tui.rs`: crossterm event → `tui::Event` -/
+
+/-- `pump` was written from these branches of `tui.rs` (re-read from the source on every run by
+    `gen/extractors/tuipump.py`: the two branches of the `tokio::select!`, the arms of `match maybe_event` and of
+    `match evt`, white space removed), clause by clause:
+    `.key k kind` — arm 1 (sent only when `kind == Press`, the `KeyEvent` unchanged);
+    `.resize col _` — arm 2 (only the `width` cell);  `.mouse _` — arm 3 (`k` on `ScrollUp`, `j` on `ScrollDown`,
+    the two `if`s are exclusive because `event.kind` is one value);  `.otherEvent` — arm 4;  `.readError` — arm 5;
+    `.streamEnd` — arm 6;  `.tickDue` — arm 7 (the only `send` whose failure is ignored; the four others `unwrap`,
+    which panics only when the receiver — owned by the UI task through `EventHandler` — is gone).
+    An edit of any arm makes this theorem fail until `pump` has been re-read. -/
+theorem pump_arms_modelled :
+    Gen.TuiPump.tickMillis = 250 ∧
+    Gen.TuiPump.arms = [
+      ("maybe_event=crossterm_event / Some(Ok(evt)) / crossterm::event::Event::Key(key)",
+        "if key.kind==crossterm::event::KeyEventKind::Press{tx.send(Event::Key(key)).unwrap();}"),
+      ("maybe_event=crossterm_event / Some(Ok(evt)) / crossterm::event::Event::Resize(col,_)",
+        "width=col"),
+      ("maybe_event=crossterm_event / Some(Ok(evt)) / crossterm::event::Event::Mouse(event)",
+        "if event.kind==crossterm::event::MouseEventKind::ScrollUp{tx.send(Event::Key(KeyEvent::new(crossterm::event::KeyCode::Char('k'),event.modifiers))).unwrap();}if event.kind==crossterm::event::MouseEventKind::ScrollDown{tx.send(Event::Key(KeyEvent::new(crossterm::event::KeyCode::Char('j'),event.modifiers))).unwrap();}"),
+      ("maybe_event=crossterm_event / Some(Ok(evt)) / _", ""),
+      ("maybe_event=crossterm_event / Some(Err(_))", "tx.send(Event::Error).unwrap();"),
+      ("maybe_event=crossterm_event / None", ""),
+      ("_=delay", "tx.send(Event::Tick(width)).unwrap_or(());")] :=
+  ⟨rfl, rfl⟩
+
+/-- **Total**: every turn of the event task sends at most one event and leaves a width. -/
+theorem pump_total (w : Nat) (i : Input) : ∃ w' evs, pump w i = (w', evs) ∧ evs.length ≤ 1 := by
+  refine ⟨_, _, rfl, ?_⟩
+  cases i with
+  | key k kind => show (if kind = .press then [Event.key k] else []).length ≤ 1; split <;> simp
+  | mouse kind => cases kind <;> simp
+  | _ => simp
+
+/-- what reaches the channel: key PRESSES only (the key code unchanged), `k`/`j` for the mouse wheel, a tick
+    carrying the width of the latest resize, an error for a read error — nothing else -/
+theorem pump_sends (w : Nat) (i : Input) (e : Event) (h : e ∈ (pump w i).2) :
+    (∃ k, i = .key k .press ∧ e = .key k) ∨
+    (i = .mouse .scrollUp ∧ e = .key (.char 'k')) ∨ (i = .mouse .scrollDown ∧ e = .key (.char 'j')) ∨
+    (i = .readError ∧ e = .error) ∨ (i = .tickDue ∧ e = .tick w) := by
+  cases i with
+  | key k kind =>
+    simp only [pump] at h
+    split at h
+    · next hk => simp at h; subst hk; exact .inl ⟨k, rfl, h⟩
+    · simp at h
+  | mouse kind => cases kind <;> simp_all [pump]
+  | _ => simp_all [pump]
+
+/-- the width cell only changes on a resize -/
+theorem pump_width (w : Nat) (i : Input) :
+    (pump w i).1 = w ∨ ∃ col rows, i = .resize col rows ∧ (pump w i).1 = col := by
+  cases i with
+  | mouse kind => cases kind <;> simp [pump]
+  | resize col rows => exact .inr ⟨col, rows, rfl, rfl⟩
+  | _ => simp [pump]
+
+/-- **Composition with `update()`.**  Whatever crossterm delivers (any input history, any initial width),
+    the events it puts on the channel, handled in order, never panic and keep the invariant. -/
+theorem pump_update_inv (w : Nat) (ins : List Input) (ui : Ui) (h : Inv ui) :
+    ∃ ui', run ui (pumpAll w ins) = .ok ui' ∧ Inv ui' ∧ ui'.n = ui.n :=
+  run_inv (pumpAll w ins) ui h
+
+/-- … and with the whole loop (a redraw after every event that crossterm's history produced). -/
+theorem pump_mainLoop_inv (m : Matcher) (w : Nat) (ins : List Input) (frames : Event → Iter)
+    (hfr : ∀ e, (frames e).fleet.length < 2 ^ 64 ∧ (frames e).t.showsTable = true)
+    (ui : Ui) (h : Inv ui) :
+    ∃ ui', mainLoop m ui ((pumpAll w ins).map fun e => { frames e with ev := some e }) = .ok ui' ∧
+      Inv ui' := by
+  obtain ⟨u, hu, hi, _⟩ := mainLoop_inv m ((pumpAll w ins).map fun e => { frames e with ev := some e }) ui h
+    (by
+      intro it hit
+      obtain ⟨e, _, rfl⟩ := List.mem_map.mp hit
+      exact hfr e)
+  exact ⟨u, hu, hi⟩
+
 /-! ### the defect this property found (model of the code before the repair)
 
 `items.len() - 1` on an empty table underflows: from the start-up state of `main`
@@ -423,5 +625,22 @@ example : (run (init 2) [.key (.char '/'), .key (.char 'q'), .key .enter]).toOpt
     = some (false, ['q']) := by decide
 example : (run (init 2) [.key (.char '/'), .key (.char 'q'), .key .enter, .key (.char 'q')]).toOption.map (·.quit)
     = some true := by decide
+/-- the hypotheses of `mainLoop_inv` are satisfiable: a search typed on two aircraft, then `Esc` -/
+example : ItersOk [⟨some (.key (.char '/')), ⟨100, 30⟩, 5, twoAircraft⟩, ⟨some (.key (.char 'b')), ⟨80, 24⟩, 6, []⟩,
+    ⟨none, ⟨80, 24⟩, 7, twoAircraft⟩] := by
+  intro it h
+  simp only [List.mem_cons, List.not_mem_nil, or_false] at h
+  rcases h with rfl | rfl | rfl <;> exact ⟨by decide, by decide⟩
+/-- the filter lists by address, callsign (case-insensitive), registration without dashes; not the stale or once-seen -/
+example : (displayed litMatch 100 "f-gk".toList
+    [{ icao24 := "39ac45".toList, registration := some "F-GKXA".toList, lastseen := 90 },
+     { icao24 := "0fgk00".toList, lastseen := 100 },
+     { icao24 := "aaaaaa".toList, callsign := some "FGK1".toList, lastseen := 60 },
+     { icao24 := "bbbbbb".toList, callsign := some "FGK2".toList, count := 1, lastseen := 100 },
+     { icao24 := "cccccc".toList, lastseen := 100 }]).map (fun a => String.ofList a.icao24) = ["39ac45", "0fgk00"] := by
+  decide
+/-- crossterm history: a release is dropped, the wheel scrolls, a resize is carried by the next tick -/
+example : pumpAll 80 [.key (.char 'q') .release, .mouse .scrollDown, .resize 120 40, .tickDue, .readError, .key .esc .press]
+    = [.key (.char 'j'), .tick 120, .error, .key .esc] := by decide
 
 end Rs1090.Props.C17
